@@ -182,7 +182,13 @@ def run_matrix(tier, classes, scens_one, scens_pers, salt, action=None, parallel
         pts = lpi.select(usable, tier, '%s/%s/%s' % (salt, cls, scen), kinds=kinds, extra_repeats=extra_repeats)
         if per_class_cap and len(pts) > per_class_cap:
             from vlib.common import rng
-            pts = sorted(rng('cap', salt, cls, scen).sample(pts, per_class_cap))
+            # landing points inside the sections that write to the result stream / report the outcome are never
+            # dropped by the cap: [_send_result .. back in do_work], [_cleanup .. end], the exception handler
+            crit = critical_indices(tr)
+            keep = [k for k in pts if k in crit]
+            rest = [k for k in pts if k not in crit]
+            n = max(0, per_class_cap - len(keep))
+            pts = sorted(keep + (rng('cap', salt, cls, scen).sample(rest, n) if len(rest) > n else rest))
         byi = {e['i']: e for e in tr if 'i' in e}
         for k in pts:
             jobs.append((cls, scen, k, dict(byi.get(k) or {}, at=lpi.at_of(tr, k))))
@@ -360,3 +366,23 @@ def stdlib_internal(point):
     # the start-up Event.set() window of ThreadWorker._run is pyworkers' business, everything else is not
     in_startup_set = any(fr[1] == 'set' for fr in stack) and not any(fr[1] in ('do_work', '_cleanup', '_send_result', '_init_child') for fr in stack)
     return not in_startup_set
+
+
+def critical_indices(trace):
+    """Indices of recorded events inside _send_result (until control is back in do_work) and from the first
+    _cleanup / exception-handler logging to the end of the run."""
+    out = set()
+    inside = None
+    for e in trace:
+        if 'i' not in e:
+            continue
+        f = e.get('func')
+        if f == '_send_result' and e.get('kind') == 'start':
+            inside = 'send'
+        elif f == '_cleanup' and e.get('kind') == 'start':
+            inside = 'cleanup'
+        elif inside == 'send' and f == 'do_work':
+            inside = None
+        if inside:
+            out.add(e['i'])
+    return out
